@@ -13,6 +13,7 @@ CHECK = {
         "aabb_face_point", "aabb_edge_point", "aabb_corner_point", "aabb_zero_extent",
         "obb_inside_dyadic_axis_rotation", "obb_inside_generic",
         "obb_face_point", "obb_edge_point", "obb_corner_point", "obb_zero_extent", "obb_to_aabb",
+        "tiny_length_boxes", "aabb_inside_tiny_lengths", "obb_inside_tiny_lengths", "tiny_zero_extent", "tiny_centre_origin",
         "rotation_mode_0", "rotation_mode_1", "rotation_mode_2", "rotation_mode_3", "rotation_mode_4",
         "interval_union", "interval_dim1", "interval_dim2", "interval_dim3",
         "pointset_preconditioner", "set_all_negative", "set_all_positive", "set_fixed_mixed_octant",
@@ -25,6 +26,7 @@ CHECK = {
     "required_oracles": [
         "aabb.from_interval.exact", "aabb.from_interval.rel", "aabb.to_interval.exact", "aabb.inside.exact", "aabb.inside.generic",
         "obb.inside.exact", "obb.inside.generic",
+        "aabb.inside.tiny.exact", "aabb.inside.tiny.generic", "obb.inside.tiny.exact", "obb.inside.tiny.generic",
         "obb2aabb.corners_enclosed", "obb2aabb.faces_touched", "obb2aabb.point_of_obb_inside",
         "interval.union_is_hull", "interval.inside_closed",
         "pointset.min_is_true_minimum", "pointset.max_is_true_maximum", "pointset.mean_vs_centroid",
@@ -33,11 +35,14 @@ CHECK = {
         "container.mean_of_matrices"],
     "required_counters": ["aabb_exact_on_boundary_checked", "obb_exact_on_boundary_checked",
                           "interval_inside_on_boundary_checked", "aabb_inside_via_interval_ctor",
-                          "preconditioner_recomputed_on_used_object"],
+                          "preconditioner_recomputed_on_used_object", "tiny_exact_outside_checked"],
     "rule": "case = one of {box built from an interval; axis-aligned containment on a dyadic grid (points on faces, edges, "
             "corners, zero extents, one-ulp neighbours of the faces) or with random operands and offsets of 0.5..1e5 ulps from a "
             "face; oriented containment with exact signed-permutation rotations on the grid or with random / multiple-of-45-deg / "
-            "tiny-angle rotations; enclosing axis-aligned box of an oriented box; union of 2..5 intervals in 1D/2D/3D sharing end "
+            "tiny-angle rotations; axis-aligned and oriented containment for boxes with tiny lengths (half extents 0, the smallest "
+            "denormal, around the smallest normal, or log-uniform 1e-300..1e-3 (double) / 1e-44..1e-3 (float); centre at the "
+            "origin, equally tiny, or ordinary; query points displaced from the faces by offsets of the same tiny scales, either "
+            "side; verdict exact whenever every operand is representable, e.g. centre at the origin); enclosing axis-aligned box of an oriented box; union of 2..5 intervals in 1D/2D/3D sharing end "
             "points, with closed-containment queries on and one ulp off the hull; PointSetPreconditioner over the eight point types, "
             "fresh or re-used object, 1..1000 points all-negative / all-positive / fixed mixed octant / straddling / with exact "
             "zeros, clustered far from the origin, identical points, one constant coordinate; min/max/mean of vector/deque/list "
@@ -53,8 +58,11 @@ CHECK = {
                  "min/max/mean) over generated boxes, rotations, intervals and point sets",
     "assumptions": ["half extents are non-negative and interval lower <= upper (the documented preconditions; the constructors assert them)",
                     "rotations are proper (det +1) and orthogonal to within the rounding of their entries",
-                    "homogeneous points carry w == 1; the extrema/mean are compared on all stored components",
-                    "magnitudes stay within 1e-3..1e6 so that no overflow/underflow enters the extents",
+                    "homogeneous points are generated with w == 1 (the unit last coordinate they carry everywhere in the library); "
+                    "the extrema/mean are compared on all stored components, sets with w != 1 are outside the workload",
+                    "magnitudes stay within 1e-3..1e6 so that no overflow/underflow enters the extents, except in the tiny-length "
+                    "containment class, whose lengths go down to the denormals (the ambiguity band there includes the absolute "
+                    "error of underflowing products)",
                     "a zero-size point set (largest side 0) is not asked for a scale (infinite accepted, counted)",
                     "long double (x87 80-bit) evaluation of the definitions is the reference",
                     "g++ 12 ASan+UBSan runtime; asserts live (no -DNDEBUG)"],
